@@ -44,6 +44,8 @@ struct SyncRun : NodeEnv {
     int tpdoSeen = 0;
     void op(const Op &o) {
         size_t mk = w.mark(); const std::string &k = o.k; tpdoSeen = 0; int tpdoExp = -1;
+        if (k == "sendfail") { S().sendFail = (int)(o.arg(0) % 4); cov.hit("F5-can-send-failure"); return; }   // the next n frames are refused by the CAN driver: attempts count, the schedule must not shift
+        if (k == "lostsync") { uint32_t id = cobid & 0x7FF; if (o.arg(0)) S().readErr = 1; else S().readEmpty = 1; w.rx(0, Frame(id, 0, {})); w.canproc(0); S().rx.clear(); S().readErr = 0; S().readEmpty = 0; cov.hit("F6-can-read-error"); tpdoExp = 0; safety(); if (v.ok) checkProduced(mk, now(), "lost SYNC"); if (v.ok && tpdoSeen) fail("sync/tpdo-unexpected", "synchronous TPDO sent although the CAN driver delivered no SYNC"); return; }
         if (k == "tick") { w.tick(0, (uint64_t)o.arg(0)); if (producing) tpdoExp = -1; else tpdoExp = 0; }
         else if (k == "nmt") { uint8_t cs = (uint8_t)o.arg(0); deliver(Frame(0, 2, {cs, 0})); int old = m; if (cs == 1) m = M_OP; else if (cs == 2) m = M_STOP; else if (cs == 128) m = M_PREOP; else if (cs == 129 || cs == 130) { m = M_PREOP; activate(); cov.hit("reset"); } if (m == M_OP && old != M_OP) cnt = 0; tpdoExp = 0; }
         else if (k == "sync") {
@@ -103,6 +105,7 @@ Plan gen_sync(Rng &r, bool thorough) {
         else if (c < 10) p.ops.push_back(Op("sync", {(int64_t)(r.chance(3, 5) ? 0 : r.range(1, 3)), (int64_t)r.below(4)}));
         else if (c < 13) p.ops.push_back(Op("w1006", {cyc()}));
         else if (c < 17) p.ops.push_back(Op("w1005", {(r.chance(1, 2) ? 0x40000000ll : 0) | r.pick<int64_t>({0x80, 0x80, 0x90, 0x100, 0x81})}));
+        else if (r.chance(1, 4)) p.ops.push_back(r.chance(1, 2) ? Op("sendfail", {r.range(1, 3)}) : Op("lostsync", {(int64_t)r.below(2)}));
         else p.ops.push_back(Op("nmt", {r.pick<int64_t>({1, 1, 2, 128, 129, 130})}));
     }
     return p;
